@@ -37,7 +37,11 @@ static inline void iora_jobj_set(iora_jobj *o, Json key, Json v, size_t id)
   (void)v;
   iora_jobj_pre(o, key, id);
   if (JSON_KEY_IS_WITNESS(key)) { if (o->has == 0) o->n++; o->has = 1; o->val_id = id; }
+#ifdef IORA_NATIVE
+  else o->n++;                              /* differential run: every other key counts as new (an upper bound; the member limit is not exercised there) */
+#else
   else if (nondet_bool()) o->n++;          /* some other key: new, or a duplicate that is overwritten */
+#endif
   iora_jobj_post(o);
 }
 /* obj.emplace(key, value): no effect when the key is present */
@@ -46,7 +50,11 @@ static inline void iora_jobj_emplace(iora_jobj *o, Json key, Json v, size_t id)
   (void)v;
   iora_jobj_pre(o, key, id);
   if (JSON_KEY_IS_WITNESS(key)) { if (o->has == 0) { o->n++; o->has = 1; o->val_id = id; } }
+#ifdef IORA_NATIVE
+  else o->n++;
+#else
   else if (nondet_bool()) o->n++;
+#endif
   iora_jobj_post(o);
 }
 static inline Json Json_object(iora_jobj o)
@@ -56,8 +64,12 @@ static inline Json Json_object(iora_jobj o)
 }
 #define Json_array(a) ((Json){ .type = JsonType_Array, .b = false, .i = 0, .d = 0.0, .s = {0, 0} })
 /* recursion measure depthMax + 1 - depth: strictly decreasing at every recursive call (no function-level decreases clause in CBMC) */
+#ifdef IORA_NATIVE   /* used inside a comma expression: must be an expression natively too */
+#define IORA_REC_MEASURE(callee_depth, caller_depth) ((void)(((callee_depth) > (caller_depth) && (callee_depth) <= self->_limits.depthMax + 1) ? 0 : (abort(), 0)))
+#else
 #define IORA_REC_MEASURE(callee_depth, caller_depth) IORA_ASSERT((callee_depth) > (caller_depth) && (callee_depth) <= self->_limits.depthMax + 1, \
   "recursion measure depthMax + 1 - depth decreases and stays non-negative at the recursive call")
+#endif
 
 /* callees proved in other units: declared only, replaced by their contracts (post.c) */
 void JsonParser_skipWhitespace(JsonParser *self);
